@@ -230,6 +230,7 @@ func encode(ctx *encoder.RuntimeContext, v interface{}) ([]byte, error) {
 
 	p := uintptr(header.ptr)
 	ctx.Init(p, codeSet.CodeLength)
+	ctx.KeepRefs = append(ctx.KeepRefs, unsafe.Pointer(codeSet)) // Init has reset KeepRefs: pin the program again
 	ctx.KeepRefs = append(ctx.KeepRefs, header.ptr)
 
 	buf, err := encodeRunCode(ctx, b, codeSet)
@@ -258,6 +259,7 @@ func encodeNoEscape(ctx *encoder.RuntimeContext, v interface{}) ([]byte, error) 
 
 	p := uintptr(header.ptr)
 	ctx.Init(p, codeSet.CodeLength)
+	ctx.KeepRefs = append(ctx.KeepRefs, unsafe.Pointer(codeSet)) // Init has reset KeepRefs: pin the program again
 	buf, err := encodeRunCode(ctx, b, codeSet)
 	if err != nil {
 		return nil, err
@@ -285,6 +287,7 @@ func encodeIndent(ctx *encoder.RuntimeContext, v interface{}, prefix, indent str
 
 	p := uintptr(header.ptr)
 	ctx.Init(p, codeSet.CodeLength)
+	ctx.KeepRefs = append(ctx.KeepRefs, unsafe.Pointer(codeSet)) // Init has reset KeepRefs: pin the program again
 	buf, err := encodeRunIndentCode(ctx, b, codeSet, prefix, indent)
 
 	ctx.KeepRefs = append(ctx.KeepRefs, header.ptr)
